@@ -100,6 +100,7 @@ func (e *Engine) opaqueStruct(t types.Type) bool {
 
 // flatten returns the scalar leaves of a Go type.
 func (e *Engine) flatten(t types.Type) []Comp {
+	t = e.P.canonT(t)
 	key := t
 	if c, ok := e.flatCache[key]; ok {
 		return c
@@ -166,6 +167,7 @@ func (e *Engine) flatten(t types.Type) []Comp {
 
 // fieldRange returns the component index range [lo,hi) of field i in struct type t.
 func (e *Engine) fieldRange(t types.Type, i int) (int, int) {
+	t = e.P.canonT(t)
 	st := t.Underlying().(*types.Struct)
 	lo := 0
 	for j := 0; j < i; j++ {
